@@ -102,6 +102,13 @@ def main():
         br = common.regenerate_and_build(targets=('driver',))
         rep.extra['gen_changed'] = br.gen_changed
         rep.extra['gen_diff'] = getattr(br, 'gen_diff', '')
+        fb = getattr(br, 'gen_fallback', [])
+        if fb or getattr(br, 'gen_notes', []):
+            # not a violation: these parts of the model are no longer regenerated from the source (the code there changed shape);
+            # they keep the committed definition and stay tied to the code by the correspondence alone, with a raised budget
+            rep.extra['gen_fallback'] = {'definitions': fb, 'notes': getattr(br, 'gen_notes', [])}
+            print(f"NOTE: {len(fb)} generated definition(s) could not be re-derived from the source and keep the committed reference "
+                  f"({', '.join(fb[:6])}{' …' if len(fb) > 6 else ''}); tie for them: correspondence only", file=sys.stderr)
         if not br.gen_ok:
             if 'UNSUPPORTED' in br.gen_error:
                 broken.append({'tie': 'translator', 'detail': br.gen_error[-600:]})
@@ -129,7 +136,7 @@ def main():
                         broken.append({'theorem_file': f'PyTRS/Props/{pid}.lean', 'detail': 'leanchecker: ' + lc['log']})
             else:
                 broken.append({'theorem_file': f'PyTRS/Props/{pid}.lean', 'detail': info.get('log', '')[-1500:]})
-        rep.extra['fingerprints_changed'] = common.fingerprints_changed()
+        rep.extra['fingerprints_changed'] = common.fingerprints_changed() + ['gen-fallback:' + n for n in getattr(br, 'gen_fallback', [])]
         ctx = Ctx(rep, args.tier, seed, driver, rep.extra['fingerprints_changed'])
 
         # tier-1: L0 and str primitives vs CPython
